@@ -9,6 +9,7 @@ OPI = "androguard/decompiler/opcode_ins.py"
 WR = "androguard/decompiler/writer.py"
 INS = "androguard/decompiler/instruction.py"
 META = {
+    "technique": 'contract-based deductive verification: symbolic execution of the real functions against sidecar contracts (z3/cvc5) for the proved units; bounded contract evaluation (enumerated scope / independent writer) for the rest',
     "level": "other",
     "partial": True,
     "level_text": "Partial: only the opcode -> expression translation is under contract. For every int/long arithmetic, bitwise, "
